@@ -247,10 +247,15 @@ func (x *Exec) FairSuffix(maxCycles int) SuffixResult {
 		if len(live) == 1 {
 			x.Step(Action{K: "M", A: live[0].Idx})
 		}
+	cycle:
 		for _, a := range live {
 			for _, b := range live {
 				if a.Idx != b.Idx {
 					x.Step(Action{K: "G", A: a.Idx, B: b.Idx})
+					if x.Dead() {
+						// (a panic inside a node's critical section leaves its lock held: no further step)
+						break cycle
+					}
 				}
 			}
 		}
@@ -262,9 +267,17 @@ func (x *Exec) FairSuffix(maxCycles int) SuffixResult {
 // harnessPanic: the frame that panicked is harness code, not babble code.
 func harnessPanic(stack string) bool {
 	lines := strings.Split(stack, "\n")
-	after := false
-	for _, l := range lines {
+	// the original panic is the last "panic(" entry of the trace (wrappers that recover and panic again, e.g. the
+	// delivery of an RPC, add further entries above it)
+	lastPanic := -1
+	for i, l := range lines {
 		if strings.HasPrefix(l, "panic(") {
+			lastPanic = i
+		}
+	}
+	after := false
+	for i, l := range lines {
+		if i == lastPanic {
 			after = true
 			continue
 		}
